@@ -200,7 +200,8 @@ pub static FFRAGS: std::sync::LazyLock<Vec<String>> = std::sync::LazyLock::new(|
             v.push(shape.replace('N', n));
         }
     }
-    for t in ["x", "<!--", "-->", "<![CDATA[", "]]>", ">"] {
+    // (leaving the island: its end tag, the other root's end tag, an HTML break-out tag)
+    for t in ["x", "<!--", "-->", "<![CDATA[", "]]>", ">", "</svg>", "</math>", "<p>"] {
         v.push(t.to_string());
     }
     v
